@@ -1863,3 +1863,37 @@ package otto
 //@   invariant@2 value >= 0.0
 //@   at_call float64Value : negative ==> !(arg0 > 0.0)
 //@   at_call float64Value : !negative ==> !(arg0 < 0.0)
+
+// ---------------------------------------------------------------------------
+// type_regexp.go: the matching protocol (C10)
+// ---------------------------------------------------------------------------
+
+// RegExp.prototype.exec core (15.10.6.2): only RegExp objects; a failed match - no match, or
+// a lastIndex outside [0, length] for a global expression - resets lastIndex to 0; the
+// subject is never sliced outside its bounds; a global match advances lastIndex.
+// [[Get]] yields a language value (ASSUMED of the property tables and of getters)
+//@ func (*object).get
+//@   trusted
+//@   requires o != nil
+//@   ensures jsValue(result)
+//@ func (*object).regExpValue
+//@   inline
+//@ func execRegExp
+//@   props C10
+//@   safety C02 C10
+//@   requires this != nil && this.runtime != nil
+//@   assumes is(this.value, regExpObject) ==> this.value.(regExpObject).regularExpression != nil
+//@   ensures old(this.class) == classRegExpName
+//@   calls (*object).put(this, "lastIndex", _, _) whenret !result0
+//@   ensures !result0 ==> isnil(result1)
+
+// String.prototype.split with a RegExp separator (15.5.4.14): never more than limit
+// elements - neither substrings nor captures - when a limit is given.
+//@ func builtinStringSplit
+//@   props C10 C09
+//@   nosafety
+//@   requires wfCall(call) && argsOK(call.ArgumentList) && call.runtime != nil
+//@   stable call.ArgumentList
+//@   invariant@1 len(valueArray) == found && found >= 0 && (limit > 0 ==> found < limit)
+//@   invariant@2 len(valueArray) == found && found >= 0 && (limit > 0 ==> found < limit)
+//@   at_call (*runtime).newArrayOf : limit > 0 ==> len(arg1) <= limit
